@@ -21,6 +21,21 @@
 // the result of a function of the packages that returns such an object) is local and produces
 // no fact.  What the approximation cannot see is listed in checks/C19.json (trusted base).
 //
+// Functions ALL OF WHOSE CALLS ARE VISIBLE (unexported name, value never taken, no closure or
+// wrapper, no interface method of that name, at least one static call; callers.go) are analysed in
+// the context of their calls, so that extracting a helper does not change the facts:
+//
+//	(C1) the must-hold analysis starts from the mutexes held at every call (not for go / defer);
+//	(C2) allow-list entries of kind write / read / call also tag the sites of the unexported
+//	     helpers whose callers all belong to the named function (anchors; not the region kinds);
+//	(C3) a parameter stands for the arguments of all calls, a call value for what the callee
+//	     returns; passing a reference to a package-level object to such a function, or returning
+//	     it from one, is a leak only where it is finally stored, sent or handed to a function that
+//	     foreign code can call; such a function is not callable from foreign code and is init-only
+//	     when all its calls lie in init-only functions;
+//	(C4) a package-level `error` variable set once, in the package initialiser, to errors.New /
+//	     fmt.Errorf and whose address is never taken is an immutable sentinel (no leak).
+//
 // The reviewed file allow.json (embedded) names the reader API, the declared guards and the
 // allow-list: write sites on reader paths that lie outside the claim of the property, each with
 // the run-time condition (guard) that puts it outside.  The tool only *tags* those sites; the
@@ -143,8 +158,8 @@ type analyzer struct {
 	anchor map[*fnInfo]*fnInfo
 	// (C3) functions all of whose calls are visible: parameter -> the arguments of all calls (callers.go)
 	sentinelErr map[string]bool // (C4) package-level `error` variables holding an errors.New / fmt.Errorf value for good
-	visible map[*ssa.Function][]callRef
-	bind    map[*ssa.Parameter][]ssa.Value
+	visible     map[*ssa.Function][]callRef
+	bind        map[*ssa.Parameter][]ssa.Value
 }
 
 func (a *analyzer) qual(p *types.Package) string {
